@@ -36,6 +36,11 @@ var manifestations = []manifest{
 	{"wrong-type", "hard", "mj", 1},
 	{"bad-stage-defs", "hard", "s", 0},
 	{"missing-stage-defs", "hard", "s", 0}, // detected after the heartbeat timeout (60 simulated minutes)
+	// Not in the table: "the job records _complete and then its process exits non-zero
+	// or dies".  On the unchanged tree the outcome depends on whether mrp notices the
+	// exit before it acts on the completion notice (both orders are legal schedules),
+	// so there is no schedule-independent expectation to check (seeded change C06-e
+	// lives exactly there and is not caught; DESIGN.md section 12).
 	{"extra-key", "benign", "mj", 1},
 }
 
